@@ -1,12 +1,13 @@
 """C12 - HashClient single-key and multi-key operations agree on where a key lives (decided structurally)."""
 import ast
+import re
 from collections import namedtuple
 
 from .model import AnalysisError, node_src, is_self_attr, call_name
-from .paths import Interp, Domain, Env, TOP, NONE, Const, TupleV, Exc, ORD, fmt_trace, Opaque, Ctx, Neq
+from .paths import Interp, Domain, Env, TOP, NONE, Const, TupleV, Exc, ORD, fmt_trace, Opaque, Ctx, Neq, FuncRef
 from .report import walk_no_nested
 from . import wire
-from .colls import ExactCollections, DictV, deref
+from .colls import ExactCollections, DictV, deref, Ref, content
 
 LEVEL = "other"
 LEVEL_TEXT = (
@@ -63,9 +64,15 @@ class RouteDomain(Domain):
     def call(self, node, fval, args, kwargs, state):
         name = call_name(node)
         if name == "isinstance" and len(args) == 2 and args[0] == Sym("key"):
-            return [("ok", Const(self.is_pair), state)]
+            # the key of the scenario is a 2-tuple (pair) or, for a plain key, a str / bytes of whatever length - two
+            # characters included: what the test says depends on the class(es) it names
+            names = {x.split(".")[-1] for x in re.findall(r"[A-Za-z_][A-Za-z_0-9.]*", node_src(node.args[1]))}
+            general = {"Sequence", "Iterable", "Collection", "Sized", "Container", "Reversible", "object"}
+            if self.is_pair:
+                return [("ok", Const(bool(names & ({"tuple"} | general))), state)]
+            return [("ok", Const(bool(names & ({"str", "bytes"} | general))), state)]
         if name == "len" and args and args[0] == Sym("key"):
-            return [("ok", Const(2) if self.is_pair else TOP, state)]
+            return [("ok", Const(2) if (self.is_pair or getattr(self, "two_chars", False)) else TOP, state)]
         if name == "self.hasher.get_node":
             self.routed.append((node, args[0] if args else TOP, state))
             return [("ok", NodeOf(args[0] if args else TOP), state)]
@@ -74,11 +81,20 @@ class RouteDomain(Domain):
             return [("ok", Opaque("validated-key"), st), ("exc", Exc(ORD, "MemcacheIllegalInputError", node.lineno), state)]
         if name == "self._retry_dead":
             return [("ok", NONE, state)]
+        if name.startswith("self._") and name.count(".") == 1 and self.prog is not None:
+            # a private helper of the router (e.g. an extracted pair splitter): interpreted in line
+            m = self.prog.method("HashClient", name[5:], required=False)
+            if m is not None and m is not self.fn:
+                res = self.inline(node, m, args, kwargs, state)
+                if res is not None:
+                    return res
         return [("ok", TOP, state)]
 
     def unpack(self, value, n, node, state):
         if value == Sym("key") and n == 2 and self.is_pair:
             return [Sym("server_key_of_pair"), Sym("inner_of_pair")], False
+        if value == Sym("key") and n == 2 and getattr(self, "two_chars", False):
+            return [Sym("first character of the key"), Sym("second character of the key")], False
         return super().unpack(value, n, node, state)
 
     def subscript_load(self, objval, idxval, node, state):
@@ -341,6 +357,10 @@ class HashDomain(ExactCollections, Domain):
         return state.set("#imprecise", 1)
 
     def name_load(self, name, state, node=None):
+        if not state.has(name) and name in ("list", "dict", "set", "tuple"):
+            return Opaque("builtin:" + name)  # a container type passed around as a factory
+        if not state.has(name) and self.fn is not None and name in self.fn.module.functions:
+            return FuncRef(name)  # a module-level function passed around as a callback
         if not state.has(name) and self.fn is not None and name in self.fn.module.assigns:
             # a module-level constant (e.g. a table of command names)
             from .model import fold, NotConst
@@ -356,6 +376,8 @@ class HashDomain(ExactCollections, Domain):
         b = self.coll_attr(objval, node)
         if b is not None:
             return b
+        if isinstance(objval, Opaque) and objval.tag.startswith("builtin:"):
+            return Opaque("%s.%s" % (objval.tag[8:], node.attr))  # e.g. dict.__setitem__ as a callback
         if is_self_attr(node, "clients"):
             return Opaque("clients")
         if is_self_attr(node):
@@ -401,6 +423,21 @@ class HashDomain(ExactCollections, Domain):
         return tuple(out)
 
     def call(self, node, fval, args, kwargs, state):
+        # callbacks and factories that travel as values
+        if isinstance(fval, Opaque) and fval.tag in ("builtin:list", "builtin:dict") and not args:
+            return [("ok",) + self.alloc(state, node, fval.tag[8:], TupleV(()) if fval.tag.endswith("list") else DictV(()))]
+        if fval == Opaque("dict.__setitem__") and len(args) == 3:
+            return [("ok", NONE, self.subscript_store(args[0], args[1], args[2], node, state))]
+        if fval == Opaque("list.append") and len(args) == 2 and isinstance(args[0], Ref):
+            c_ = content(args[0], state)
+            return [("ok", NONE, self.put(state, args[0], TupleV(c_.items + (args[1],)) if c_ is not None else TOP))]
+        if isinstance(fval, FuncRef) and self.fn is not None and fval.name in self.fn.module.functions and not (isinstance(node.func, ast.Name) and node.func.id == fval.name and False):
+            res = self.inline(node, self.fn.module.functions[fval.name], args, kwargs, state)
+            if res is not None:
+                return res
+        if call_name(node) in ("collections.defaultdict", "defaultdict") and len(args) == 1 and isinstance(args[0], Opaque) and args[0].tag in ("builtin:list", "builtin:dict"):
+            # defaultdict(<factory held in a variable>)
+            return [("ok",) + self.alloc(state, node, "ddict:%s" % args[0].tag[8:], DictV(()))]
         r = self.coll_call(node, fval, args, kwargs, state)
         if r is not None:
             return r
@@ -709,7 +746,7 @@ def run(chk):
                 gcalls.append((f, c))
     shapes = {(len(c.args), tuple(sorted(k.arg or "**" for k in c.keywords))) for f, c in gcalls}
     r1.expect(shapes == {(1, ())}, "all %d call sites of _get_client pass exactly the key" % len(gcalls), "HashClient:_get_client-call-shapes", "_get_client is called with differing arguments (%s) at different sites: single-key and multi-key operations are not routed by the same function of the key" % sorted(shapes), fn=gc, node=gcalls[0][1] if gcalls else gc.node)
-    r1.floor("call sites of _get_client", len(gcalls), 3)
+    r1.floor("call sites of _get_client", len(gcalls), 2)
     rc = prog.method(hc, "_run_cmd")
     rcp = run_cmd_problems(prog)
     r1.expect(not rcp, "_run_cmd routes its key parameter, looks the method up on the routed client and sends the inner key", "HashClient._run_cmd:routing", "_run_cmd: %s" % "; ".join(rcp), fn=rc, node=rc.node)
@@ -729,15 +766,18 @@ def run(chk):
     # ------------------------------------------------------------------ R2 routed key raw, sent key inner
     r2 = chk.rule("C12.R2", "_get_client routes the raw server key (first component of a pair) through the hasher on every path and returns the inner key")
     n_paths = 0
-    for is_pair in (False, True):
+    for is_pair in (False, True, "two-chars"):
         for dead in (False, True):
+            two = is_pair == "two-chars"  # a plain str / bytes key that happens to have two characters
+            is_pair = False if two else is_pair
             dom = RouteDomain(prog, gc, is_pair, dead)
+            dom.two_chars = two
             pname = gc.pos_params()[0].name
             outs = Interp(dom, gc.node, prog).run(Env({pname: Sym("key")}))
             want_route = Sym("server_key_of_pair") if is_pair else Sym("key")
             want_inner = Sym("inner_of_pair") if is_pair else Sym("key")
             for node, arg, st in dom.routed:
-                r2.expect(arg == want_route, "get_node(%s) for a %s key" % (want_route.name, "pair" if is_pair else "plain"), "HashClient._get_client:routes-wrong-value", "for a %s key the hasher is asked about %s instead of the raw server key: the same key is placed differently from what the published rule (and other operations) give" % ("(server_key, key) pair" if is_pair else "plain", _d(arg)), fn=gc, node=node)
+                r2.expect(arg == want_route, "get_node(%s) for a %s key" % (want_route.name, "pair" if is_pair else "plain"), "HashClient._get_client:routes-wrong-value", "for a %s key the hasher is asked about %s instead of the raw server key: the same key is placed differently from what the published rule (and other operations) give" % ("(server_key, key) pair" if is_pair else ("plain two-character" if two else "plain"), _d(arg)), fn=gc, node=node)
             if not dom.routed:
                 r2.fail("HashClient._get_client:no-routing", "no call of hasher.get_node is reached", fn=gc)
             for s, v, t in outs.of("ret"):
